@@ -37,7 +37,14 @@ def count_literals(case):
     return case.get('function') in ('COUNT', 'COUNTA') and case.get('class') in ('text-literal', 'error-literal')
 
 
-SIGNATURES = {'value_text_forms': value_text_forms, 'logical_text_literal': logical_text_literal, 'count_literals': count_literals}
+def numeric_text_in_range(case):
+    """an aggregation over a referenced array that holds text which looks like a number: the implementation converts
+    the text, and that is the whole difference (the definition evaluated on the converted array agrees with it)"""
+    return case.get('function') in AGG and bool(case.get('numeric_text_in_range')) and bool(case.get('agrees_when_text_is_converted'))
+
+
+SIGNATURES = {'value_text_forms': value_text_forms, 'logical_text_literal': logical_text_literal, 'count_literals': count_literals,
+              'numeric_text_in_range': numeric_text_in_range}
 
 
 def new_run():
@@ -290,7 +297,7 @@ def check(run):
     bookrun.setup()
     rnd = run.rng
     quick = run.tier == 'quick'
-    req, pend = [], []
+    req, pend, alts = [], [], []
     n = 9000 if quick else 250000
     for k in range(n):
         f, args, cls = gen_call(rnd)
@@ -304,12 +311,21 @@ def check(run):
         case['formula'] = formula
         run.count(1, json.dumps(case, default=str), any(not a.direct for a in args) or any(not isinstance(a.rows[0][0], (int, float)) for a in args), f)
         req.append('fn %s %d %s' % (f, len(args), ' '.join(a.wire() for a in args)))
+        alt = None
+        if f in AGG and any((not a.direct) and any(isinstance(v, str) and not isinstance(v, Err) and v in NUMTEXT for r in a.rows for v in r) for a in args):
+            case['numeric_text_in_range'] = True
+            conv = [a if a.direct else Arg([[float(v) if (isinstance(v, str) and not isinstance(v, Err) and v in NUMTEXT) else v for v in r] for r in a.rows], False)
+                    for a in args]
+            alt = 'fn %s %d %s' % (f, len(conv), ' '.join(a.wire() for a in conv))
         pend.append((f, case, got))
+        alts.append(alt)
         if k < 3:
             run.sample({'formula': formula, 'result': [[bookrun.show(x) for x in r] for r in got]})
     answers = model(req)
+    alt_idx = [i for i, a in enumerate(alts) if a]
+    alt_ans = dict(zip(alt_idx, model([alts[i] for i in alt_idx])))
     notfn = 0
-    for ans, (f, case, got) in zip(answers, pend):
+    for i_, (ans, (f, case, got)) in enumerate(zip(answers, pend)):
         if ans == 'notfn':
             notfn += 1
             run.disagree('the model has no definition for %s with %d arguments' % (f, len(case['args'])), case)
@@ -320,6 +336,12 @@ def check(run):
         R, C = int(t[0]), int(t[1])
         mv = [t[2 + i * C: 2 + (i + 1) * C] for i in range(R)]
         ok = len(mv) == len(got) and all(len(a) == len(b) and all(same(f, x, y) for x, y in zip(a, b)) for a, b in zip(mv, got))
+        if not ok and i_ in alt_ans and ' ' in alt_ans[i_]:
+            t2 = alt_ans[i_].split(' ')
+            R2, C2 = int(t2[0]), int(t2[1])
+            mv2 = [t2[2 + i * C2: 2 + (i + 1) * C2] for i in range(R2)]
+            case['agrees_when_text_is_converted'] = len(mv2) == len(got) and all(
+                len(a) == len(b) and all(same(f, x, y) for x, y in zip(a, b)) for a, b in zip(mv2, got))
         if not ok:
             run.violation('%s: implementation %s, Excel definition (model) %s' % (
                 case['formula'], [[bookrun.show(x) for x in r] for r in got], [[bookrun.show(x) for x in r] for r in mv]), case)
@@ -330,6 +352,8 @@ def check(run):
     run.replay_witness('logical-text-literal', w == 'b1', {'witness': '=XOR("a",TRUE)', 'result': w})
     w = call('COUNT', [Arg([[1]], True), Arg([['a']], True)])[1][0][0]
     run.replay_witness('count-literals', w == 'x#VALUE!', {'witness': '=COUNT(1,"a")', 'result': w})
+    w = call('SUM', [Arg([['3', 1]], False)])[1][0][0]
+    run.replay_witness('numeric-text-in-range', w == wire_val(4.0), {'witness': '=SUM(A1:B1) with A1 the text "3" and B1 = 1', 'result': w})
     run.extra['model_requests'] = len(req)
     run.extra['trusted_base'] = ['the reference definitions are my reading of the Excel documentation (DESIGN §3 C12)',
                                  'transcendental kernels (libm vs numpy) agree to 1e-12 relative: assumed, compared with that tolerance',
